@@ -451,6 +451,7 @@ class Service(object):
         self.checks = []         # per-call observations for the transparency oracle
         self.threads = []        # (name, thread object, obs list)
         self.extractor_calls = 0
+        self.partial_obs = None
         self.slept = 0.0
         self.last_result = None
         self.last_raised = None
@@ -605,6 +606,7 @@ class Interp(object):
     def run_operation(self):
         svc = self.svc
         obs = []
+        svc.partial_obs = obs
         try:
             self.run_steps(svc.spec.body, obs, 'main')
         except EarlyReturn:
